@@ -35,7 +35,7 @@ def make(rng, tier):
             x = rand_tt(rng, N, rand_ranks(rng, d, 2), dt, M=M)
             if kind == "inflated":
                 y = rand_tt(rng, N, rand_ranks(rng, d, 3), dt, M=M)
-                if rep % 2 == 0:
+                if (rep // 6 + d) % 2 == 0:
                     x = x + 0 * y if d > 0 else x
                     x = x + y * 0.0
                 else:
